@@ -126,6 +126,10 @@ def project_calls_group(gid, runs):
         if r["status"] == "ok":
             res = r["result"]
             S = r["sampler"]
+            if "nlike_total" in r:
+                class _N:
+                    n_likelihood_evaluations = r["nlike_total"]
+                S = _N()
             pop = {"x": to_np(res.x), "ll": to_np(res.log_likelihood), "lp": to_np(res.log_prior),
                    "lq": to_np(res.log_q) if getattr(res, "log_q", None) is not None else None,
                    "width": width_of(res.x)}
@@ -146,7 +150,7 @@ def project_calls_group(gid, runs):
         out_runs.append({"role": r["role"], "status": r["status"], "exc": r["exc"][:200], "ev": evs,
                          "resumed": False, "orng_created": int(r["orng_created"]),
                          "rng_calls": int(urng.ncalls),
-                         "rcfg": {"every": 0, "ckpt_events": True, "n_final": 0, "max_n_steps": 0,
+                         "rcfg": {"every": 0, "ckpt_events": True, "adaptive": True, "n_steps": 0, "n_final": 0, "max_n_steps": 0,
                                   "has_path": False}})
     cfg = {"sampler": c["sampler"], "ns": c["ns"], "dtype": c["dtype"] or "default", "width": w,
            "N": c["N"], "adaptive": True, "n_steps": 0, "has_min_step": False, "max_n_steps": 0,
@@ -195,7 +199,7 @@ def run_flow_pair_member(cfg, ids, role):
         evs.append({"t": "result", "nlike": -1, "coh": [], "size_ok": True, "width_ok": True, "ids": rid})
     return {"role": role, "status": status, "exc": exc[:200], "ev": evs, "resumed": False,
             "orng_created": 0, "rng_calls": 0,
-            "rcfg": {"every": 0, "ckpt_events": True, "n_final": 0, "max_n_steps": 0, "has_path": False}}
+            "rcfg": {"every": 0, "ckpt_events": True, "adaptive": True, "n_steps": 0, "n_final": 0, "max_n_steps": 0, "has_path": False}}
 
 
 def flow_pair_group(gid, cfg):
@@ -215,3 +219,66 @@ def flow_pair_group(gid, cfg):
          "n_final": 0, "every": 0, "has_floor": False, "has_path": False, "precond": "none",
          "rng_route": "none", "expect_cfg": False}
     return {"id": gid, "kind": "calls_group", "cfg": c, "zero": 0, "one": 1, "runs": [r1, r2]}
+
+
+# --------------------------------------------------------------------------
+# sampling inside / after the multiprocessing-pool context (C10, C17)
+# --------------------------------------------------------------------------
+
+class _FakePool:
+    def map(self, fn, it):
+        return list(map(fn, it))
+
+    def close(self):
+        pass
+
+    def join(self):
+        pass
+
+
+def run_pool_sequence(cfg, ids=None):
+    """Aspire.enable_pool(pool, parallelize_prior=p): importance sampling inside the context, then again
+    after leaving it, on the same Aspire object.  Returns one run record per sampling call."""
+    from aspire import Aspire
+    c = dict(DEFAULT)
+    c.update(cfg)
+    ids = ids or IdTable()
+    xp = get_xp(c["ns"])
+    prob = Problem(c["dims"], c["width"], c["center"])
+    prob.recipe = bool(c["recipe"])
+    tr = Tracer(prob, ids, recipe=c["recipe"])
+    flow = smcdrv.make_flow(dict(smcdrv.DEFAULT, **{k: c[k] for k in ("dims", "flow_seed", "dtype", "bad_frac")}), prob, xp)
+    tr.flow = flow
+
+    def ll(samples, map_fn=map):
+        return tr.log_likelihood(samples)
+
+    def lp(samples, map_fn=map):
+        return tr.log_prior(samples)
+    a = Aspire(log_likelihood=ll, log_prior=lp, dims=c["dims"], parameters=[f"x_{i}" for i in range(c["dims"])],
+               flow=flow, xp=xp, dtype=c["dtype"])
+    runs = []
+
+    def one(role):
+        tr.ev = []; tr.k = tr.kp = 0
+        verifflow_mod.OBSERVER = tr.flow_event
+        status, exc, res = "ok", "", None
+        try:
+            res = a.sample_posterior(n_samples=c["N"])
+        except Exception as ex:
+            status, exc = "raised", f"{type(ex).__name__}: {ex}"
+        finally:
+            verifflow_mod.OBSERVER = None
+        runs.append({"cfg": dict(c, sampler="importance"), "role": role, "status": status, "exc": exc,
+                     "tracer": smcdrv._freeze_tracer(tr), "sampler": getattr(a, "_sampler", None), "result": res,
+                     "urng": LoggingRNG(np.random.default_rng(1), tr), "flow": flow, "prob": prob, "ids": ids,
+                     "orng_created": 0, "resumed": False,
+                     "nlike_total": int(getattr(getattr(a, "_sampler", None), "n_likelihood_evaluations", -1))})
+    with a.enable_pool(_FakePool(), close_pool=c.get("close_pool", False), parallelize_prior=c.get("par_prior", False)):
+        one("single")
+    one("single")
+    if c.get("second_context"):
+        with a.enable_pool(_FakePool(), close_pool=True, parallelize_prior=not c.get("par_prior", False)):
+            one("single")
+        one("single")
+    return runs
